@@ -32,7 +32,7 @@ Definition plain_example : schema :=
        TInterface (s "Node") None [SF (s "id") (s "id") [] (RNonNull (RNamed (s "ID"))) None None []] [];
        TEnum (s "E") (Some [116; 119; 111; 10; 108; 105; 110; 101; 115; 92; 10; 10; 101; 110; 100]%N)
              [SEV (s "A") (PStr (s "A")) (Some (s "first value")) (Some default_deprecation) [tag_dir 4];
-                           SEV (s "B") (PStr (s "B")) None None []] [];
+                           SEV (s "B") (PStr (s "B")) (Some [98; 92]%N) None []] [];
        TUnion (s "U") None [s "Query"] [];
        TInput (s "In") None [SIV (s "n") (s "n") (RNamed (s "Int")) (Some (PInt 1)) (Some (s "how many")) [];
                              SIV (s "t") (s "t") (RNamed (s "String")) (Some (PStr (s "x"))) None []] [];
@@ -67,7 +67,7 @@ Ltac desc_ok_tac :=
           |apply source_chars_b; vm_compute; reflexivity]
         | apply desc_ok_block;
           [reflexivity|discriminate|vm_compute; reflexivity|vm_compute; reflexivity|vm_compute; discriminate
-          |vm_compute; discriminate|vm_compute; lia|apply source_chars_b; vm_compute; reflexivity] ].
+          |vm_compute; discriminate|vm_compute; first [lia|right; right; reflexivity]|apply source_chars_b; vm_compute; reflexivity] ].
 
 Ltac desc_okd_tac :=
   first [ exact I
@@ -76,7 +76,7 @@ Ltac desc_okd_tac :=
           |vm_compute; discriminate|apply source_chars_b; vm_compute; reflexivity]
         | apply desc_okd_block;
           [reflexivity|discriminate|vm_compute; reflexivity|vm_compute; reflexivity|vm_compute; reflexivity
-          |vm_compute; discriminate|vm_compute; discriminate|vm_compute; lia|apply source_chars_b; vm_compute; reflexivity] ].
+          |vm_compute; discriminate|vm_compute; discriminate|vm_compute; first [lia|right; right; reflexivity]|apply source_chars_b; vm_compute; reflexivity] ].
 
 Lemma text_roundtrip_instance :
   full_schema example_opts plain_example /\ valid_locations plain_example
